@@ -12,8 +12,9 @@ hooks_path = os.path.join(VERIF, "driver", "hooks.json")
 hooks = json.load(open(hooks_path)) if os.path.exists(hooks_path) else {"source_commits": []}
 
 checks = []
+ready = set(json.load(open(os.path.join(VERIF, "driver", "ready.json"))))
 for pid in allp:
-    if pid not in props.PROPS or pid in na:
+    if pid not in props.PROPS or pid in na or pid not in ready:
         continue
     P = props.PROPS[pid]
     c = dict(
